@@ -2,7 +2,7 @@
 # regenerate every evidence file on the current tree (run before committing evidence)
 cd "$(dirname "$(readlink -f "$0")")/.." || exit 1
 rc=0
-for p in C01 C02 C03 C04 C05 C06 C07 C08 C09 C10 C11 C14 C15 C16 C18; do
+for p in C01 C02 C03 C04 C05 C06 C07 C08 C09 C10 C11 C12 C14 C15 C16 C18; do
   ./check $p --tier ${1:-quick} | tail -1
   [ ${PIPESTATUS[0]} -eq 0 ] || rc=1
 done
